@@ -22,7 +22,9 @@ EXTENDS Integers, Sequences, FiniteSets, TLC
 \* Generation may be restricted to the operations of some tags (--tags): the operations that are generated
 \* enforce exactly what they enforce in the full server - in particular the requirements they INHERIT from the
 \* document, whose schemes no selected operation may name itself.
-Selection == {"all", "tagged"}
+\* autoconf: generate server --implementation-package - the generated auto_configure file wires the
+\* authenticators (and handlers) of a backend package: the same requirements are enforced through that wiring
+Selection == {"all", "tagged", "autoconf"}
 
 CONSTANTS Schemes,        \* scheme names
           Missing         \* schemes whose authenticator is absent from AuthenticatorsFor ({} in the real design)
